@@ -197,10 +197,16 @@ func run(c *core.Case) {
 		_, _, runs := db.VerifLSM().CompactionDurations()
 		return fmt.Sprintf("done=%d inflight=%d compaction_runs=%d layout=%s flush_pending=%d", completed.Load(), inflight.Load(), runs, dbx.LayoutShape(db), db.VerifLSM().FlushPending())
 	}
-	select {
-	case <-finished:
-	case <-time.After(deadline):
-		// bounded-progress rule
+	waited := time.Duration(0)
+wait:
+	for {
+		select {
+		case <-finished:
+			break wait
+		case <-time.After(deadline):
+		}
+		waited += deadline
+		// bounded-progress rule: is anything still moving?
 		before := progress()
 		quiet := true
 		end := time.Now().Add(quietWindow)
@@ -221,19 +227,24 @@ func run(c *core.Case) {
 		select {
 		case <-finished:
 			c.Count("slow_but_finished", 1)
+			break wait
 		default:
-			if quiet {
-				buf := make([]byte, 1<<20)
-				buf = buf[:runtime.Stack(buf, true)]
-				stacks := string(buf)
-				if len(stacks) > 60000 {
-					stacks = stacks[:60000]
-				}
-				prios := fmt.Sprint(db.VerifLSM().VerifPriorities())
-				c.Violation("C37|calls-never-return|"+sc.Name, fmt.Sprintf("%d calls still running after %s and no call completed during a further %s window (%s)", inflight.Load(), deadline, quietWindow, before), map[string]any{"scenario": sc, "config": cfg, "compaction_priorities": prios, "goroutines": stacks})
-			} else {
-				c.Inconclusive(fmt.Sprintf("%s: still running after %s but calls keep completing", sc.Name, deadline))
+		}
+		if quiet {
+			buf := make([]byte, 1<<20)
+			buf = buf[:runtime.Stack(buf, true)]
+			stacks := string(buf)
+			if len(stacks) > 60000 {
+				stacks = stacks[:60000]
 			}
+			prios := fmt.Sprint(db.VerifLSM().VerifPriorities())
+			c.KeepDirs() // engine goroutines are still alive
+			c.Violation("C37|calls-never-return|"+sc.Name, fmt.Sprintf("%d calls still running after %s and no call completed during a further %s window (no call completes, no compaction run, no layout change, flush queue unchanged) (%s)", inflight.Load(), waited, quietWindow, before), map[string]any{"scenario": sc, "config": cfg, "compaction_priorities": prios, "goroutines": stacks})
+			return
+		}
+		if waited >= 4*deadline {
+			c.KeepDirs()
+			c.Inconclusive(fmt.Sprintf("%s: still running after %s but calls keep completing", sc.Name, waited))
 			return
 		}
 	}
